@@ -1012,3 +1012,61 @@ func noScannerRule(p *Prog, r *Report, id string) {
 		r.OK("own code/bufio.Scanner", "", fmt.Sprintf("not used (%d call sites scanned)", n))
 	}
 }
+
+// ---------------------------------------------------------------------------
+// C05.R3 (part): field settings are recorded in RawFieldSettings
+
+// fieldSettingKeys: the settings that only have an effect on a struct target (documented classification).
+var fieldSettingKeys = []string{"map", "ignore", "autoMap", "ignoreUnexported", "update:ignoreZeroValueField", "matchIgnoreCase", "ignoreMissing"}
+
+// fieldSettingRecordedRule: evaluated with the command fixed to each field-setting key,
+// config.parseMethodLine cannot return success without having appended the line to
+// Method.RawFieldSettings (directly, or because parseCommon classified the key).
+func fieldSettingRecordedRule(p *Prog, r *Report) {
+	fi, sf := needFunc(p, r, "config.parseMethodLine")
+	if fi == nil {
+		return
+	}
+	for _, key := range fieldSettingKeys {
+		key := key
+		nCmd := 0
+		sc := &absScenario{
+			assume: func(v ssa.Value, _ func(ssa.Value) absVal) (absVal, bool) {
+				if ex, ok := v.(*ssa.Extract); ok && ex.Index == 0 {
+					if c, ok := ex.Tuple.(*ssa.Call); ok && ssaCalleeObj(c) != nil && isFunc(ssaCalleeObj(c), modPath+"/config/parse", "", "Command") {
+						nCmd++
+						return aStr(key), true
+					}
+				}
+				return aUnknown, false
+			},
+			marks: func(in ssa.Instruction) (string, bool) {
+				if st, ok := in.(*ssa.Store); ok {
+					if fa, ok := st.Addr.(*ssa.FieldAddr); ok && fieldName(fa) == "RawFieldSettings" {
+						return "recorded", true
+					}
+				}
+				return "", false
+			},
+		}
+		got := absReachState(sf, sc, func(ret *ssa.Return, eval func(ssa.Value) absVal, st map[string]absVal) bool {
+			if len(ret.Results) != 1 {
+				return false
+			}
+			if a := eval(ret.Results[0]); a.k == absNonNil {
+				return false
+			}
+			_, rec := st["@recorded"]
+			return !rec
+		})
+		site := fmt.Sprintf("config.parseMethodLine/%q is recorded as field setting", key)
+		switch {
+		case nCmd == 0:
+			r.Bad(site, p.PosStr(fi.Decl.Pos()), "the command (first result of parse.Command) is not recognisable: the classification cannot be evaluated")
+		case got != nil:
+			r.Bad(site, p.PosStr(got.Pos()), "the line can be accepted without being appended to RawFieldSettings: validation and the overlap check would not see this field setting, and on a non-struct or bypassed method it would be dropped silently")
+		default:
+			r.OK(site, p.PosStr(fi.Decl.Pos()), "no successful return without the line in RawFieldSettings")
+		}
+	}
+}
